@@ -17,13 +17,13 @@ def run(ctx):
                 "SAM: one session = one valid file with all its single-line corruptions")
     ctx.assumptions += ["a decoder that has not returned after 20 s on an input of < 2 KB is reported as non-terminating",
                         "float / uint8 token syntax is strconv's (tables travel with the events)"]
-    ctx.model_check("MC_Fasta", "MC_Fasta_machine8" if thorough else "MC_Fasta_machine6", workers=8)
-    ctx.model_check("MC_Fastq", "MC_Fastq_machine8" if thorough else "MC_Fastq_machine6", workers=8)
+    ctx.model_check("MC_Fasta", "MC_Fasta_machine9" if thorough else "MC_Fasta_machine6", workers=8)
+    ctx.model_check("MC_Fastq", "MC_Fastq_machine9" if thorough else "MC_Fastq_machine6", workers=8)
     ctx.model_check("MC_Newick", "MC_Newick_total_t" if thorough else "MC_Newick_total_q", workers=8)
     ctx.model_check("MC_Sam", "MC_Sam_lines_t" if thorough else "MC_Sam_lines_q", workers=8)
     ctx.model_check("MC_Sam", "MC_Sam_file_t" if thorough else "MC_Sam_file_q", workers=8)
     ctx.model_check("MC_Bed", "MC_Bed_file_t" if thorough else "MC_Bed_file_q", workers=8)
-    leg_total(ctx, 3000 if thorough else 250)
+    leg_total(ctx, 12000 if thorough else 250)
     c03.leg_T(ctx, 400 if thorough else 60)
     ctx.exhaustive = True
 
